@@ -156,10 +156,53 @@ Qed.
 
 Lemma nl_run_get_last l ops t :
   snd (nl_run l (ops ++ [OGet t])) =
-  snd (nl_run l ops) ++ [option_map snd (find (tag_is t) (fold_left nl_step ops l))].
+  snd (nl_run l ops) ++ [AGet (option_map snd (find (tag_is t) (fold_left nl_step ops l)))].
 Proof.
   rewrite nl_run_app. pose proof (nl_run_state l ops) as Hs.
   destruct (nl_run l ops) as [l1 o1]. simpl in *. subst l1. rewrite nl_get_find. reflexivity.
+Qed.
+
+(* Count / First issued after any history answer with the length / the head of the state reached *)
+Lemma nl_run_count_last l ops :
+  snd (nl_run l (ops ++ [OCount])) = snd (nl_run l ops) ++ [ACount (length (fold_left nl_step ops l))].
+Proof.
+  rewrite nl_run_app. pose proof (nl_run_state l ops) as Hs.
+  destruct (nl_run l ops) as [l1 o1]. simpl in *. subst l1. reflexivity.
+Qed.
+
+Lemma nl_run_first_last l ops :
+  snd (nl_run l (ops ++ [OFirst])) = snd (nl_run l ops) ++ [AFirst (hd ([], []) (fold_left nl_step ops l))].
+Proof.
+  rewrite nl_run_app. pose proof (nl_run_state l ops) as Hs.
+  destruct (nl_run l ops) as [l1 o1]. simpl in *. subst l1. unfold nl_first.
+  destruct (fold_left nl_step ops l); reflexivity.
+Qed.
+
+(* every answer of a history, wherever it is issued: the trace of a history split at any point *)
+Lemma nl_run_snd_app l ops1 ops2 :
+  snd (nl_run l (ops1 ++ ops2)) = snd (nl_run l ops1) ++ snd (nl_run (fold_left nl_step ops1 l) ops2).
+Proof.
+  rewrite nl_run_app. pose proof (nl_run_state l ops1) as Hs.
+  destruct (nl_run l ops1) as [l1 o1]. simpl in *. subst l1.
+  destruct (nl_run (fold_left nl_step ops1 l) ops2). reflexivity.
+Qed.
+
+(* the observers are pure: a Count or a First anywhere in a history leaves the state it is issued in, the final state
+   and every other answer as they are without it *)
+Lemma nl_observers_pure l ops1 o ops2 : o = OCount \/ o = OFirst ->
+  nl_step (fold_left nl_step ops1 l) o = fold_left nl_step ops1 l /\
+  fst (nl_run l (ops1 ++ o :: ops2)) = fst (nl_run l (ops1 ++ ops2)) /\
+  snd (nl_run l (ops1 ++ o :: ops2)) =
+    snd (nl_run l ops1) ++ nl_obs (fold_left nl_step ops1 l) o ++ snd (nl_run (fold_left nl_step ops1 l) ops2) /\
+  snd (nl_run l (ops1 ++ ops2)) = snd (nl_run l ops1) ++ snd (nl_run (fold_left nl_step ops1 l) ops2).
+Proof.
+  intros Ho.
+  assert (forall s, nl_step s o = s) as Hstep by (intro s; destruct Ho; subst o; reflexivity).
+  split; [apply Hstep|]. split; [|split].
+  - rewrite !nl_run_state, !fold_left_app. cbn [fold_left]. rewrite Hstep. reflexivity.
+  - rewrite nl_run_snd_app. f_equal. cbn [nl_run]. rewrite Hstep.
+    destruct (nl_run (fold_left nl_step ops1 l) ops2). reflexivity.
+  - apply nl_run_snd_app.
 Qed.
 
 (* Equals *)
